@@ -26,6 +26,28 @@ Theorem C18_union_sound : forall rs h k s,
 Proof. exact union_sound. Qed.
 Print Assumptions C18_union_sound.
 
+(* LauncherRegistry.find with a launchers.py that goes through its hosts in order: the launcher is for the
+   first alternative (over all arguments of find, in the order given) that some host satisfies, on the first
+   host that satisfies it -- a later alternative never wins because an earlier host happens to fit it *)
+Theorem C18_registry_first : forall args hs i j,
+  registry_find args hs = Some (i, j) ->
+  exists r h, nth_error (all_alts args) i = Some r /\ nth_error hs j = Some h /\ satisfies r h /\
+    (forall i' r' h', (i' < i)%nat -> nth_error (all_alts args) i' = Some r' -> In h' hs -> ~ satisfies r' h') /\
+    (forall j' h', (j' < j)%nat -> nth_error hs j' = Some h' -> ~ satisfies r h').
+Proof. exact registry_first. Qed.
+Print Assumptions C18_registry_first.
+
+Theorem C18_registry_none : forall args hs,
+  registry_find args hs = None <-> (forall r h, In r (all_alts args) -> In h hs -> ~ satisfies r h).
+Proof. exact registry_none. Qed.
+Print Assumptions C18_registry_none.
+
+(* one string with |, several strings, objects, objects built with |, or a mix: same answer *)
+Theorem C18_registry_grouping : forall args args' hs,
+  all_alts args = all_alts args' -> registry_find args hs = registry_find args' hs.
+Proof. exact registry_grouping. Qed.
+Print Assumptions C18_registry_grouping.
+
 (* & and * never alter their operands, and compute the documented combination *)
 Theorem C18_and_pure : forall st a b st' n,
   valid st a -> valid st b -> and_op st a b = (st', n) ->
@@ -48,3 +70,22 @@ Theorem C18_and_shallow_refuted : exists st a b, valid st a /\ valid st b /\
   view (fst (and_op_shallow st a b)) a <> view st a.
 Proof. exact and_shallow_refuted. Qed.
 Print Assumptions C18_and_shallow_refuted.
+
+(* handing all the alternatives to find_launcher as one union ("each host, then each alternative") lets a
+   later alternative win although the first one is satisfiable *)
+Theorem C18_registry_hostfirst_refuted : exists args hs i j i' j',
+  registry_find args hs = Some (i, j) /\ registry_find_hostfirst args hs = Some (i', j') /\ (i < i')%nat.
+Proof. exact registry_hostfirst_refuted. Qed.
+Print Assumptions C18_registry_hostfirst_refuted.
+
+(* registry.py read literally keeps an object built with | as one spec: the programmatic a | b then does not
+   mean what the text "a | b" means (it agrees with registry_find on strings and simple objects) *)
+Theorem C18_registry_union_object_refuted : exists alts hs,
+  registry_find_objects [(true, alts)] hs <> registry_find_objects [(false, alts)] hs.
+Proof. exact registry_union_object_refuted. Qed.
+Print Assumptions C18_registry_union_object_refuted.
+
+Theorem C18_registry_objects_simple : forall args hs,
+  (forall a, In a args -> fst a = false) -> registry_find_objects args hs = registry_find args hs.
+Proof. exact registry_objects_simple. Qed.
+Print Assumptions C18_registry_objects_simple.
